@@ -432,6 +432,10 @@ func mainHistory(seed uint64, rng *Rng, blocks int) *Pilot {
 		if b == 7 || p.R.Chance(1, 12) {
 			p.SetRegistryWithDuplicates()
 		}
+		// the ethbridge blacklist, set and later replaced, with elements that are not addresses
+		if b == 6 || b == 10 || p.R.Chance(1, 10) {
+			p.SetBlacklist()
+		}
 		if b == 11 {
 			p.MarginParamsZeros(int(seed))
 		} else if p.R.Chance(1, 7) {
